@@ -398,7 +398,10 @@ theorem dot_eq_gsum (n : Nat) (f g : Nat → GQ) : Mat.dot n f g = gsum n fun k 
   | succ k ih =>
     rw [Mat.dot, gsum, ih]
     split
-    · rename_i h; rw [(isZero_iff _).1 h]; simp
+    · rename_i h
+      rcases (Bool.or_eq_true_iff.1 h) with h | h
+      · rw [(isZero_iff _).1 h]; simp
+      · rw [(isZero_iff _).1 h]; simp
     · rfl
 
 theorem trace_mul_comm (a b : Mat) (h : a.n = b.n) : (a.mul b).trace = (b.mul a).trace := by
